@@ -952,6 +952,23 @@ def run_path(prog, fn, g, path, script=None):
                         seg.binds[v['id']] = seg.loc(ini)
                     except Unsupported:
                         pass
+    # const locals / reference locals declared before this segment whose initialiser still holds at its first node (checked on the CFG)
+    if path and path[0][0] != g.entry.id:
+        try:
+            live = g.live_const_locals(path[0][0])
+        except Exception:
+            live = []
+        for (v, ini) in live:
+            t = v.get('t') or {}
+            try:
+                if t.get('k') == 'ref':
+                    if v['id'] not in seg.binds:
+                        seg.binds[v['id']] = seg.loc(ini)
+                else:
+                    seg.binds[v['id']] = 'L:' + v['name']
+                    seg.store['L:' + v['name']] = seg.ival(ini)
+            except Unsupported:
+                pass
     conds = []
     for (nid, lab) in path:
         n = g.nodes[nid]
